@@ -151,3 +151,147 @@ def func_defaults(fnode):
         if d is not None:
             out[p.arg] = d
     return out
+
+
+# --------------------------------------------------------------------------------------------------
+# Syntactic inlining of helpers newer than the rules (for the rules that read statements, not terms)
+# --------------------------------------------------------------------------------------------------
+def inline_new_helpers(prog, fi, depth=2):
+    """A copy of `fi.node` in which statement-level calls of repository helpers *newer than the rules* (same class
+    through self / cls / the freshly built object, or same module) are replaced by the helper's body: parameters
+    substituted by the argument expressions (plain names / attributes; anything else is bound to a fresh local
+    first), the helper's other locals renamed, `t = helper(...)` followed by `t = <returned expression>`.  Guard
+    clauses (`if c: return`) become `if c: ... else: <rest>`.  Calls the transformation cannot express are left as
+    they are.  Line numbers of inlined statements are those of the helper."""
+    import copy
+
+    counter = [0]
+
+    def resolve(call, owner):
+        f = call.func
+        if isinstance(f, ast.Name):
+            g = prog.resolve_function(f.id, owner.module)
+            return (g, None) if g is not None and g.cls is None else (None, None)
+        if isinstance(f, ast.Attribute) and isinstance(f.value, ast.Name) and owner.cls is not None:
+            g = prog.method(owner.cls, f.attr)
+            if g is not None:
+                return g, f.value
+        return None, None
+
+    def body_of(g, call, recv, target):
+        a = g.node.args
+        if a.vararg or a.kwarg or any(isinstance(x, ast.Starred) for x in call.args) or any(k.arg is None for k in call.keywords):
+            return None
+        params = [x.arg for x in a.posonlyargs + a.args]
+        decos = g.decorators
+        bound = {}
+        if g.cls is not None and "staticmethod" not in decos:
+            if not params:
+                return None
+            bound[params[0]] = recv if "classmethod" not in decos else ast.Name(id="cls", ctx=ast.Load())
+            params = params[1:]
+        if len(call.args) > len(params):
+            return None
+        for p, x in zip(params, call.args):
+            bound[p] = x
+        for k in call.keywords:
+            if k.arg not in params + [x.arg for x in a.kwonlyargs] or k.arg in bound:
+                return None
+            bound[k.arg] = k.value
+        defaults = dict(zip([x.arg for x in (a.posonlyargs + a.args)][len(a.posonlyargs + a.args) - len(a.defaults):], a.defaults))
+        for x, d in zip(a.kwonlyargs, a.kw_defaults):
+            if d is not None:
+                defaults[x.arg] = d
+        for p in params + [x.arg for x in a.kwonlyargs]:
+            if p not in bound:
+                if p not in defaults:
+                    return None
+                bound[p] = defaults[p]
+        stmts = list(g.node.body)
+        if stmts and isinstance(stmts[0], ast.Expr) and isinstance(stmts[0].value, ast.Constant) and isinstance(stmts[0].value.value, str):
+            stmts = stmts[1:]
+        if any(isinstance(n, (ast.Yield, ast.YieldFrom, ast.FunctionDef, ast.Lambda, ast.Global, ast.Nonlocal)) for s in stmts for n in ast.walk(s)):
+            return None
+        counter[0] += 1
+        tag = "__h%d_" % counter[0]
+        stored = {n.id for s in stmts for n in ast.walk(s) if isinstance(n, ast.Name) and isinstance(n.ctx, (ast.Store, ast.Del))}
+        pre, subst = [], {}
+        for p, x in bound.items():
+            simple = isinstance(x, (ast.Name, ast.Constant)) or (isinstance(x, ast.Attribute) and isinstance(x.value, ast.Name))
+            if simple and p not in stored:
+                subst[p] = x
+            else:
+                nm = tag + p
+                pre.append(ast.Assign(targets=[ast.Name(id=nm, ctx=ast.Store())], value=x))
+                subst[p] = ast.Name(id=nm, ctx=ast.Load())
+        rename = {v: tag + v for v in stored if v not in bound}
+
+        class Sub(ast.NodeTransformer):
+            def visit_Name(self, n):
+                if n.id in subst and isinstance(n.ctx, ast.Load):
+                    return copy.deepcopy(subst[n.id])
+                if n.id in subst and isinstance(subst[n.id], ast.Name):
+                    return ast.Name(id=subst[n.id].id, ctx=n.ctx)
+                if n.id in rename:
+                    return ast.Name(id=rename[n.id], ctx=n.ctx)
+                return n
+
+        def convert(sts):
+            """Statements with the helper's returns expressed: the last `return e` is the value; `if c: return` guards
+            wrap the rest.  None if a return sits where this cannot express it."""
+            out = []
+            for i, st in enumerate(sts):
+                if isinstance(st, ast.Return):
+                    if i != len(sts) - 1:
+                        return None
+                    if st.value is not None and target is not None:
+                        out.append(ast.Assign(targets=[copy.deepcopy(target)], value=st.value))
+                    elif st.value is not None and not isinstance(st.value, (ast.Name, ast.Constant)):
+                        out.append(ast.Expr(value=st.value))
+                    return out
+                if isinstance(st, ast.If) and st.body and isinstance(st.body[-1], ast.Return) and not st.orelse and not any(isinstance(n, ast.Return) for s in st.body[:-1] for n in ast.walk(s)):
+                    inner = convert(st.body)
+                    rest = convert(sts[i + 1:])
+                    if inner is None or rest is None:
+                        return None
+                    out.append(ast.If(test=st.test, body=inner or [ast.Pass()], orelse=rest))
+                    return out
+                if any(isinstance(n, ast.Return) for n in ast.walk(st)):
+                    return None
+                out.append(st)
+            return out
+
+        conv = convert(stmts)
+        if conv is None:
+            return None
+        res = pre + [Sub().visit(copy.deepcopy(s)) for s in conv]
+        for s in res:
+            ast.copy_location(s, call)
+            ast.fix_missing_locations(s)
+        return res
+
+    def rewrite(stmts, owner, d):
+        out = []
+        for st in stmts:
+            call, target = None, None
+            if isinstance(st, ast.Expr) and isinstance(st.value, ast.Call):
+                call = st.value
+            elif isinstance(st, ast.Assign) and len(st.targets) == 1 and isinstance(st.value, ast.Call) and isinstance(st.targets[0], (ast.Name, ast.Attribute, ast.Tuple)):
+                call, target = st.value, st.targets[0]
+            if call is not None and d > 0:
+                g, recv = resolve(call, owner)
+                if g is not None and g is not owner and prog.is_new_function(g):
+                    body = body_of(g, call, recv, target)
+                    if body is not None:
+                        out.extend(rewrite(body, g if g.cls is None else owner, d - 1))
+                        continue
+            n = copy.copy(st)
+            for f in ("body", "orelse", "finalbody"):
+                if isinstance(getattr(n, f, None), list) and getattr(n, f) and isinstance(getattr(n, f)[0], ast.stmt):
+                    setattr(n, f, rewrite(getattr(n, f), owner, d))
+            out.append(n)
+        return out
+
+    node = copy.copy(fi.node)
+    node.body = rewrite(list(fi.node.body), fi, depth)
+    return node
